@@ -278,6 +278,41 @@ func hostileInputs(r *core.Rand, which int) []c01Item {
 	}
 	switch which % 10 {
 	case 0: // TWCC announcing many received packets in few octets
+		if r.Intn(4) == 0 {
+			// a small status count, a last vector chunk whose surplus symbols are marked received, and
+			// fewer octets behind the chunks than those surplus deltas would need (but possibly more
+			// than 2 per counted status): a decoder that creates a delta per marked symbol must still
+			// check every one against the frame end (after seed C06n)
+			c := 1 + r.Intn(6)
+			lead := r.Pick(0, 0, 1, 2) // not-received runs before the vector chunk
+			vec := r.Pick(0xEAAA, 0xEAAA, 0xD555, 0xBFFF, 0xE6A9, 0xFFFF)
+			need := map[int]int{0xEAAA: 14, 0xD555: 7, 0xBFFF: 14, 0xE6A9: 12, 0xFFFF: 14}[vec]
+			t := r.Intn(need + 1)
+			if r.Bool() && 2*c+1 <= need {
+				t = 2*c + 1 + r.Intn(need-2*c)
+			}
+			n := 20 + 2*(lead+1) + t
+			n += (4 - n%4) % 4
+			b := make([]byte, n)
+			copy(b[4:20], r.Bytes(16))
+			left := c
+			for i := 0; i < lead; i++ {
+				run := 0
+				if left > 1 {
+					run = 1 + r.Intn(left-1)
+				}
+				left -= run
+				b[20+2*i], b[21+2*i] = byte(run>>8), byte(run)
+			}
+			b[20+2*lead], b[21+2*lead] = byte(vec>>8), byte(vec)
+			copy(b[22+2*lead:], r.Bytes(n-22-2*lead))
+			hdr(b, 15, 205)
+			b[14], b[15] = byte(c>>8), byte(c)
+			next := []byte{0x80, 201, 0, 1, 1, 2, 3, 4}
+			items = append(items, c01Item{1 + int(gen.TWCC), b}, c01Item{0, b}, c01Item{0, append(append([]byte(nil), b...), next...)},
+				c01Item{1 + int(gen.TWCC), append(append(make([]byte, 0, n+64), b...), make([]byte, 64)...)[:n]})
+			break
+		}
 		if r.Intn(3) == 0 {
 			// far more maximal "received" runs than the status count needs: the count is reached after
 			// 8 chunks; a decoder that does not stop there (a status counter that wraps) goes on
